@@ -200,7 +200,7 @@ func ruleR2(p *Prog) []Ob {
 				}
 			}
 			if rem != nil || isOverride {
-				ob := Ob{Rule: "R2", Inst: "O1:" + funcLabel(fn), Props: []string{"C05", "C11", "C06"}, Pos: p.at(logRen.call), Func: funcLabel(fn), Nontrivial: true}
+				ob := Ob{Rule: "R2", Inst: "O1:" + funcLabel(fn), Props: []string{"C05", "C11", "C06", "C12"}, Pos: p.at(logRen.call), Func: funcLabel(fn), Nontrivial: true}
 				switch {
 				case rem == nil:
 					ob.Status, ob.Msg = Violated, "the log of an existing segment is replaced while its old index file still exists: a crash between the two renames leaves a segment whose index describes another file"
